@@ -6,6 +6,8 @@ package bfe_http2
 // the HTTP/1 message written to a backend passes.
 
 import (
+	"bytes"
+
 	vrt "github.com/bfenetworks/bfe/zz_vrt"
 )
 
@@ -46,4 +48,138 @@ func VerifC25_h2FieldValidators() {
 		}
 		vrt.Assert(ok, "C25/h2-accepted-value-has-no-control-bytes")
 	}
+}
+
+// ---------------------------------------------------------------------------------------------------
+// HTTP/2 frontend end to end: HEADERS block -> Framer.readMetaFrame (real hpack decoder, value/name checks,
+// checkPseudos) -> serverConn.newWriterAndRequest (pseudo-header fields become Request.Method / Host /
+// RequestURI) -> Request.Write. One value of the block is symbolic: :authority, :method or a regular field.
+
+// litC25: HPACK "literal header field without indexing - new name", both strings raw (no Huffman).
+func litC25(name string, value []byte) []byte {
+	b := []byte{0x00, byte(len(name))}
+	b = append(b, name...)
+	b = append(b, byte(len(value)))
+	return append(b, value...)
+}
+
+func isTokenC25(b []byte) bool {
+	ok := len(b) > 0
+	for _, c := range b {
+		if !isTcharC25(c) {
+			ok = false
+		}
+	}
+	return ok
+}
+
+// linesC25 splits out at CRLF; ok=false if out does not end with CRLF or a line holds a control byte other
+// than HTAB (so a bare CR or LF anywhere makes it false).
+func linesC25(out []byte) (lines [][]byte, ok bool) {
+	ok = true
+	start := 0
+	for i := 0; i+1 < len(out); i++ {
+		if out[i] == '\r' && out[i+1] == '\n' {
+			lines = append(lines, out[start:i])
+			start = i + 2
+			i++
+		}
+	}
+	if start != len(out) {
+		return nil, false
+	}
+	for _, l := range lines {
+		for _, c := range l {
+			if c < 0x20 && c != '\t' || c == 0x7f {
+				ok = false
+			}
+		}
+	}
+	return lines, ok
+}
+
+func VerifC25_h2PseudoValues() {
+	which := vrt.Choose("which", 3)
+	v := vrt.Bytes("value", vrt.Range("vlen", 1, vrt.Param("PL", 3)))
+	method, authority := []byte("GET"), []byte("h")
+	switch which {
+	case 0:
+		authority = v
+	case 1:
+		method = v
+	}
+	var block []byte
+	block = append(block, litC25(":method", method)...)
+	block = append(block, litC25(":scheme", []byte("http"))...)
+	block = append(block, litC25(":path", []byte("/p"))...)
+	block = append(block, litC25(":authority", authority)...)
+	if which == 2 {
+		block = append(block, litC25("x-a", v)...)
+	}
+	sc, _ := newConnH2()
+	hf := &HeadersFrame{
+		FrameHeader: FrameHeader{valid: true, Type: FrameHeaders, Flags: FlagHeadersEndHeaders | FlagHeadersEndStream,
+			Length: uint32(len(block)), StreamID: 1},
+		headerFragBuf: block,
+	}
+	mh, err := sc.framer.readMetaFrame(hf)
+	if err != nil {
+		vrt.Cover("C25/h2-headers-refused")
+		return
+	}
+	st := &stream{id: 1, state: stateHalfClosedRemote}
+	attachStreamH2(sc, st)
+	_, req, err := sc.newWriterAndRequest(st, mh)
+	if err != nil {
+		vrt.Cover("C25/h2-request-refused")
+		return
+	}
+	// :method may be any value without control bytes (e.g. "G T", "(") and is written as the first word of
+	// the request line
+	methodCtl := false
+	for _, c := range method {
+		if c < 0x20 && c != '\t' || c == 0x7f {
+			methodCtl = true
+		}
+	}
+	vrt.Known("C25-h2-method-not-token", which == 1 && !isTokenC25(method) && !methodCtl)
+
+	var wire bytes.Buffer
+	if werr := req.Write(&wire); werr != nil {
+		vrt.Cover("C25/h2-write-refused")
+		return
+	}
+	out := wire.Bytes()
+	lines, ok := linesC25(out)
+	vrt.Assert(ok, "C25/h2-forward-lines-well-formed")
+	if !ok {
+		return
+	}
+	// request line, Host, [X-A], empty line - and nothing else
+	want := 3
+	if which == 2 {
+		want = 4
+	}
+	vrt.Assert(len(lines) == want && len(lines[want-1]) == 0, "C25/h2-forward-exactly-one-request")
+	if len(lines) != want {
+		return
+	}
+	rl := lines[0]
+	tail := " /p HTTP/1.1"
+	okLine := len(rl) > len(tail) && string(rl[len(rl)-len(tail):]) == tail && isTokenC25(rl[:len(rl)-len(tail)])
+	vrt.Assert(okLine, "C25/h2-forward-request-line")
+	namesOK := true
+	for _, l := range lines[1 : want-1] {
+		c := -1
+		for i := len(l) - 1; i >= 0; i-- {
+			if l[i] == ':' {
+				c = i
+			}
+		}
+		if c <= 0 || !isTokenC25(l[:c]) {
+			namesOK = false
+		}
+	}
+	vrt.Assert(namesOK, "C25/h2-forward-field-names")
+	vrt.Assert(len(lines[1]) >= 5 && string(lines[1][:5]) == "Host:", "C25/h2-forward-host")
 }
